@@ -86,6 +86,14 @@ CLAIMED["C03"] = dict(
     technique="Coq proof (unfolding of the signing pipeline, base64 round trip) + bit-exact correspondence and cross-verification with independent Gallina primitives (extracted and vm_compute/BigZ)",
 )
 
+CLAIMED["C09"] = dict(
+    category="proof",
+    text="PARTIAL by nature: memory safety of C text cannot be proved with what is installed (no C semantics). What IS proved (coq/Props/Properties_C09.v, ownership model coq/Mem/Own.v: heap of reference-counted nodes, programs in a state monad whose failure is 'use or release of a freed node'): for EVERY caller JSON tree (any type of any member at any depth) the header-merge and protected-header glue -- jose_jws_hdr, jose_jwe_hdr, the prologue of jose_jwe_dec_cek_io, encode_protected, zip_in_protected_header, the zip epilogue of jose_jwe_enc_cek_io -- never touches a freed node and gives back every reference (the caller's heap is restored exactly, nothing created survives); jwe_hdr_set_new on a kernel-computed sweep of all kinds; IO chains release their downstream; regression witnesses for the four repaired defects; and for the 25 decoder call sites with fixed buffers: under the recorded guard the requested length <= capacity so every decoder write lands inside (from C08's dec_buf_bounds). What decides the C text: every one of the 29 JSON-consuming exports (re-read from libjose.map on every run) + 2 internal glue functions called under ASan(use-after-scope)+UBSan+LSan with a counting/poisoning jansson allocator and reference-count comparison of every caller node, on valid objects of every registered algorithm and ~19 000 single structured mutations stratified over ~9 600 (function, argument, member, mutation kind) strata; the glue programs are compared with the extracted model.",
+    design_ref="DESIGN.md section 3 C09",
+    note="The theorems are about hand-translated programs (C statement beside every line) over a model of jansson's reference counting; UB-freedom / leak-freedom of the compiled C code is OBSERVED by sanitizers on the explored inputs, not proved. find_alg and the jcmd ios arrays are not modelled.",
+    technique="Coq proof on an ownership (reference-count) model of the JSON glue and on buffer-guard obligations + sanitizer-instrumented stratified mutation run compared with the extracted model",
+)
+
 CLAIMED["C10"] = dict(
     category="proof",
     text="Theorems in coq/Props/Properties_C10.v: whatever passes the key tests that the models of sign/verify/encrypt/decrypt/wrap/unwrap/exchange perform before any cryptography satisfies the RFC 7518 requirement -- HMAC keys decode to between hash-size and KEYMAX octets; content keys are exactly 16/24/32 (GCM) or 32/48/64 (CBC-HMAC) octets and the content algorithms only ever run with a key of exactly that length; key-wrapping keys exactly 16/24/32; PBES2 passwords and wrapped keys bounded by KEYMAX; RSA signature keys have a modulus of at least 256 octets on both sides; an imported EC key names one of the four curves, its (reduced) coordinates satisfy the curve equation and a present d is in [1,n) with dG = (x,y); ECDH needs two valid keys and a private value. Tie: every length 0..1100 (+2048, 4096) of HMAC keys offered to signing and to verification of a MAC made with that very key; CEK/KEK length grids on the producing side; tokens made with the exact key consumed with every truncation/extension; RSA moduli 512..2056 bits (committed corpus) for signing and for verification of valid signatures made with python; per curve ~30 EC key variants (off-curve, swapped, other curve, wrong width, x+p, d+1, d=0, d=n, d+n, unknown crv, malformed) through sign, verify, ECDH-ES wrap/unwrap, exchange; symmetric model extracted, public-key model over BigZ in coqc; independent python arithmetic as oracle.",
